@@ -421,6 +421,8 @@ Proof.
     destruct (match r1 with [] => _ | n :: t => _ end) as [res r2].
     destruct (find_pent _ _); cbn [fst]; [apply mono_deliver|apply mono_refl]. }
   destruct (c =? 82); [apply mono_refl|].
+  destruct (c =? 84); [apply mono_refl|].
+  destruct (c =? 83); [apply mono_refl|].
   destruct (c =? 31).
   { destruct a as [|blob [|]]; try apply mono_refl. destruct (Cluster.Model.zget _ _); apply mono_refl. }
   apply mono_refl.
